@@ -3,7 +3,10 @@ whose five-minute cap is not relied upon."""
 from __future__ import annotations
 
 import copy
+import re
 import time
+
+_TOKEN = re.compile(r"Z[BXM][0-9A-Z]{5}")  # class-tagged tokens are atoms: never shortened
 
 
 def _paths(obj, path=()):
@@ -78,7 +81,7 @@ def candidates(model, string_min=5):
             yield _set(model, path, type(v)())
         elif v is True:
             yield _set(model, path, False)
-        elif isinstance(v, str) and len(v) >= string_min:
+        elif isinstance(v, str) and len(v) >= string_min and not _TOKEN.fullmatch(v):
             yield _set(model, path, v[: len(v) // 2])
             yield _set(model, path, v[1:])
             yield _set(model, path, v[:-1])
